@@ -52,8 +52,12 @@ void InterrogateComponent::
 input(std::istream &in) {
   idf_input_string(in, _name);
 
-  int num_alt_names;
+  int num_alt_names = 0;
   in >> num_alt_names;
+  if (in.fail()) {
+    // (A truncated file: nothing was read into the count.)
+    return;
+  }
   _alt_names.reserve(num_alt_names);
   for (int i = 0; i < num_alt_names; ++i) {
     std::string alt_name;
